@@ -591,7 +591,8 @@ class SimWorld:
 
     def purge_packages(self):
         for name in list(sys.modules):
-            if name.split(".")[0].startswith("zcsim_p"):
+            top = name.split(".")[0]
+            if top.startswith(("zcsim_p", "zcsim-p")) or top in self.packages:
                 del sys.modules[name]
 
     def install(self):
